@@ -293,7 +293,7 @@ replace verif.test/mc => %s
 
 replace github.com/lib/pq => %s
 
-replace github.com/benoitkugler/gomacro => /repo
+replace github.com/benoitkugler/gomacro => %s
 `
 
 func runBatchCheck(bc *BatchCheck, tier string) *evid.Report {
@@ -359,7 +359,7 @@ func runBatchCheck(bc *BatchCheck, tier string) *evid.Report {
 	}
 	defer os.RemoveAll(tmp)
 	mcDir := filepath.Join(evid.VerifDir, "mc")
-	os.WriteFile(filepath.Join(tmp, "go.mod"), []byte(fmt.Sprintf(batchGoMod, mcDir, filepath.Join(mcDir, "stubs", "pq"))), 0o644)
+	os.WriteFile(filepath.Join(tmp, "go.mod"), []byte(fmt.Sprintf(batchGoMod, mcDir, filepath.Join(mcDir, "stubs", "pq"), evid.RepoDir)), 0o644)
 	if sum, err := os.ReadFile(filepath.Join(mcDir, "go.sum")); err == nil {
 		os.WriteFile(filepath.Join(tmp, "go.sum"), sum, 0o644)
 	}
